@@ -59,7 +59,7 @@ theorem PW.step {s s' : Sketch} (hw : W s' = W s + 1) (hg : LevelGrowth s s') (p
 
 theorem mergeStep_spec (P : Params) (hP : P.OK) (n0 : Nat) (ids0 : List Nat) (s o : Sketch) (b : Nat) (h : Heap)
     (ctx : MCtx P n0 ids0 s o b h) (ob : Nat) (hob : o.items = some ob) (byMove : Bool) (hA : Heap)
-    (hAid : hA.ids = ids0) (hAnx : hA.next = n0) (i : Nat) (acc : Sketch × List Bool) (ba : Nat) (h1 : Heap)
+    (_hAid : hA.ids = ids0) (hAnx : hA.next = n0) (i : Nat) (acc : Sketch × List Bool) (ba : Nat) (h1 : Heap)
     (ss : SSide (foot (owned s ++ owned o) n0) hA h1 s acc.1 b ba) (os : OSide P h1 o ob byMove i)
     (hi : i < o.itemsSize) :
     SafeF (foot (owned s ++ owned o) n0) h1 (mergeStep byMove ob i acc h1)
